@@ -268,9 +268,9 @@ class ExprMixin(object):
         if isinstance(op, pyast.Eq):
             return self.py_eq(st, a, b)
         if isinstance(op, pyast.NotEq):
-            f = self.find_special(a, '__ne__') if isinstance(a, V) else None
-            if f is not None:
-                return self.truthy(st, self.call_function(st, f, [a, b], {}, inline=True))
+            if isinstance(a, V) and isinstance(b, V) and self.find_special(a, '__ne__') is not None:
+                res = self.call_special(st, a, '__ne__', [b], lambda s: V(mkB(a.t != b.t), parse_spec('bool')))
+                return self.truthy(st, res)
             return Not(self.py_eq(st, a, b))
         if isinstance(op, pyast.Is):
             return self.identical(a, b)
@@ -335,9 +335,8 @@ class ExprMixin(object):
                 return self.dict_get(st, Val.r(container.t), item.t) != ABSENT
             if h is not None and h.kind == 'obj':
                 f = self.find_special(container, '__contains__')
-                if f is not None:
+                if f is not None and not isinstance(f, list):
                     return self.truthy(st, self.call_function(st, f, [container, item], {}, inline=True))
-                f = self.find_special(container, '__iter__')
                 raise EngineError('`in` on object %r' % (h,))
             if h is not None and h.kind in ('list', 'tuple'):
                 raise EngineError('`in` on symbolic list needs a contract-level treatment')
@@ -361,7 +360,7 @@ class ExprMixin(object):
                 return self.int_to_str(Val.i(t))
         if h is not None and h.kind == 'obj':
             f = self.find_special(v, '__str__')
-            if f is not None:
+            if f is not None and not isinstance(f, list):
                 r = self.call_function(st, f, [v], {}, inline=True)
                 return Val.s(r.t)
         ufs = self.get_uf('str_of_ref', IntS, StrS)
@@ -373,7 +372,36 @@ class ExprMixin(object):
                      ufs(Val.r(t))))))
 
     def int_to_str(self, i):
-        return z3.If(i < 0, z3.Concat(z3.StringVal('-'), z3.IntToStr(-i)), z3.IntToStr(i))
+        """str(int): an injective uninterpreted function istr with inverse sint (decimal digits are
+        not modelled; injectivity is what the properties need)."""
+        i = simp(i)
+        if z3.is_int_value(i):
+            return z3.StringVal(str(i.as_long()))
+        istr = self.get_uf('istr', IntS, StrS)
+        sint = self.get_uf('sint', StrS, IntS)
+        t = istr(i)
+        key = ('istr', i.get_id())
+        if key not in self._istr_seen:
+            self._istr_seen.add(key)
+            self.assumes.append(sint(t) == i)
+            self.assumes.append(z3.Length(t) > 0)
+            self.trust('str(int)/%d: injective uninterpreted function with inverse (digit structure not modelled)')
+        return t
+
+    _istr_seen = set()
+
+    def str_to_int(self, s):
+        """int(str) for canonical decimal strings: inverse of istr; returns (value, is_canonical)."""
+        istr = self.get_uf('istr', IntS, StrS)
+        sint = self.get_uf('sint', StrS, IntS)
+        s = simp(s)
+        if z3.is_string_value(s):
+            txt = s.as_string()
+            try:
+                return z3.IntVal(int(txt)), z3.BoolVal(str(int(txt)) == txt)
+            except ValueError:
+                return z3.IntVal(0), z3.BoolVal(False)
+        return sint(s), istr(sint(s)) == s
 
     def e_JoinedStr(self, st, e):
         parts = []
@@ -475,7 +503,8 @@ class ExprMixin(object):
             cb = self.const_int(b)
             if cb is not None and cb > 0:
                 return V(mkI(ai % bi), parse_spec('int'))   # z3 mod == python floor mod for positive divisor
-            raise EngineError('symbolic modulus')
+            self.raise_exit(st, ZeroDivisionError, bi == 0, 0)
+            return V(mkI(z3.If(bi > 0, ai % bi, -((-ai) % (-bi)))), parse_spec('int'))
         if isinstance(op, pyast.FloorDiv):
             cb = self.const_int(b)
             if cb is not None and cb > 0:
@@ -671,7 +700,7 @@ class ExprMixin(object):
             return V(t, h.elem)
         if h is not None and h.kind == 'obj':
             f = self.find_special(base, '__getitem__')
-            if f is not None:
+            if f is not None and not isinstance(f, list):
                 return self.call_function(st, f, [base, idx], {}, inline=True)
         raise EngineError('subscript on value without static type (%r) line %s' % (h, line))
 
